@@ -192,6 +192,35 @@ type c09PD struct {
 	staleP   float64
 	rng      *rand.Rand
 	lastSnap int
+	// scripted faults on the STORE path: the next GetStore for that store id fails once with this error, then PD answers again
+	storeFault map[uint64]error
+	storeFaults int
+}
+
+// the family of transient GetStore failures: none of them says that the store was removed
+var c09StoreErrs = []error{
+	fmt.Errorf("rpc error: code = Unavailable desc = connection error: connection refused"),
+	fmt.Errorf("[PD:member:ErrEtcdLeaderNotFound]etcd leader not found"),
+	fmt.Errorf("rpc error: code = NotFound desc = keyspace not found"),
+	fmt.Errorf("rpc error: code = Unknown desc = invalid store ID in request header"),
+	context.DeadlineExceeded,
+}
+
+func (p *c09PD) GetStore(ctx context.Context, id uint64, opts ...opt.GetStoreOption) (*metapb.Store, error) {
+	if err, ok := p.storeFault[id]; ok {
+		delete(p.storeFault, id)
+		p.storeFaults++
+		return nil, err
+	}
+	return p.Client.GetStore(ctx, id, opts...)
+}
+func (p *c09PD) failNextGetStore(id uint64) error {
+	if p.storeFault == nil {
+		p.storeFault = map[uint64]error{}
+	}
+	err := c09StoreErrs[p.rng.Intn(len(c09StoreErrs))]
+	p.storeFault[id] = err
+	return err
 }
 
 func (p *c09PD) WithCallerComponent(caller.Component) pd.Client { return p }
@@ -435,6 +464,10 @@ func c09NewEnv(w *bufio.Writer, seed int64, nops int, txn bool) *c09Env {
 	e.rpc = mocktikv.NewRPCClient(e.cluster, c09Mvcc, nil)
 	for _, sid := range e.stores { // every store is resolved from the start: later state changes come from reResolve only
 		st := e.cache.stores.getOrInsertDefault(sid)
+		// the first GetStore of a store may fail transiently (any error of the family): initResolve backs off and asks again
+		if e.rng.Intn(4) == 0 {
+			e.x("fault getstore(first resolve) %d: %v", sid, e.pdw.failNextGetStore(sid))
+		}
 		_, _ = st.initResolve(e.bo(), e.cache.stores)
 	}
 	return e
@@ -983,17 +1016,26 @@ func (e *c09Env) opUBuckets(v RegionVerID, req, latest uint64) {
 }
 // the periodic store check (checkAndResolve over every resolved store): Store.reResolve notices stores PD reports removed
 func (e *c09Env) opReResolve() {
-	var ss []string
+	var ss, faults []string
 	for _, sid := range e.stores {
 		st, ok := e.cache.stores.get(sid)
 		if !ok || st.getResolveState() == tombstone || st.getResolveState() == unresolved {
 			continue
 		}
+		// outcome of this store's check: 0 = PD confirms the store, 1 = PD reports it removed / tombstone, 2 = GetStore fails
+		// transiently (the store check leaves the store as it is and comes back at the next tick)
 		removed := 0
 		if m := e.cluster.GetStore(sid); m == nil || m.GetState() == metapb.StoreState_Tombstone {
 			removed = 1
 		}
+		if e.rng.Intn(5) == 0 {
+			removed = 2
+			faults = append(faults, fmt.Sprintf("%d: %v", sid, e.pdw.failNextGetStore(sid)))
+		}
 		ss = append(ss, fmt.Sprintf("%d:%d", sid, removed))
+	}
+	for _, f := range faults {
+		e.x("fault getstore %s", f)
 	}
 	arg := "_"
 	if len(ss) > 0 {
